@@ -515,7 +515,9 @@ def content_after_fits(
 ) -> Fragment | None:
     node = to_.node(depth)
     index = to_.index_after(depth) if open_ else to_.index(depth)
-    if index == node.child_count and not type_.compatible_content(node.type):
+    if not type_.compatible_content(node.type):
+        # the replace will join this node with the frontier node, which check_join
+        # only allows for compatible content, whatever comes after the position
         return None
     fit = match.fill_before(node.content, True, index)
     return fit if fit and not invalid_marks(type_, node.content, index) else None
